@@ -327,3 +327,24 @@ def rule_deny(ctx, R, roles, li, rule="LOCK-deny"):
                     if reaches:
                         R.fail(rule, sub, "transport I/O (`%s`) %s %s, which must never be held for long" % (norm_stmt(c), how, lock[1]), f.loc(c))
     R.ok(rule, roles.mod.name + "|deny-list", "%d calls executed under a lock inspected: no blocking queue op, no sleep, no transport I/O under the short locks" % checked, roles.mod.relpath)
+
+
+def rule_lock_objects(ctx, R, roles, li, rule="LOCK-object"):
+    """Every lock attribute is bound exactly once, in the constructor, to a fresh lock: a lock that is created lazily or replaced
+    later does not exclude a thread that still holds (or is about to create) another lock object."""
+    from .util import attr_writes
+    for cls in (roles.io_cls, roles.dev_cls):
+        lock_attrs = set(a for (cq, a) in li.locks if cq == cls.qualname) | set(a for a in ctx.cg.attr_types.get(cls.qualname, {}) if a.endswith("_lock"))
+        for attr in sorted(lock_attrs):
+            writers = []
+            for m in cls.methods.values():
+                if not m.params:
+                    continue
+                for k, st, kind in attr_writes(m):
+                    if k == m.params[0] + "." + attr:
+                        writers.append((m, st))
+            ok = len(writers) == 1 and writers[0][0].name == "__init__" and isinstance(writers[0][1], ast.Assign) and isinstance(writers[0][1].value, ast.Call) \
+                and bool(ctx.cg.expr_types(writers[0][0], writers[0][1].value) & LOCK_TYPES)
+            where = ", ".join(sorted(set(m.name for m, _s in writers)))
+            R.check(ok, rule, "%s.%s" % (cls.qualname, attr), "`%s` is created once, in the constructor" % attr,
+                    "`%s` is not bound exactly once in the constructor to a new Lock (written in: %s): two threads can end up holding different lock objects" % (attr, where or "nowhere"), cls.mod.relpath)
